@@ -11,17 +11,37 @@ package main
 
 import (
 	"fmt"
-	"go/ast"
-	"go/parser"
-	"go/token"
 	"os"
-	"path/filepath"
 	"regexp"
 	"strings"
 
 	"github.com/Dash-Industry-Forum/livesim2/cmd/livesim2/app"
 	"verifharness/lib"
 )
+
+// variant is what the behavioural probes found out about the tree under test. The defaults are the
+// behaviour of the current code; an inconclusive probe keeps the default and says so.
+var variant = struct {
+	rounding, roundingHow string
+	firstFix, firstHow    string
+	catchup, catchupHow   string
+}{"RCeil", "not probed", "true", "not probed", "true", "not probed"}
+
+// probeRounding asks calcSegmentAvailabilityTime for a value where truncation and rounding up differ:
+// one 2.002 s segment at timescale 30000 (60060/30000*1000 = 2001.9999999999998 in float64).
+func probeRounding() {
+	ms, pmsg := app.VerifC16AvailTime([][2]uint64{{0, 60060}}, 30000, 2002, 0, 0, 0, 0)
+	switch {
+	case pmsg != "":
+		variant.roundingHow = "probe panicked (" + pmsg + "), default kept"
+	case ms == 2002:
+		variant.rounding, variant.roundingHow = "RCeil", "60060/30000 s -> 2002 ms"
+	case ms == 2001:
+		variant.rounding, variant.roundingHow = "RTrunc", "60060/30000 s -> 2001 ms"
+	default:
+		variant.roundingHow = fmt.Sprintf("60060/30000 s -> %d ms: neither variant, default kept", ms)
+	}
+}
 
 func main() {
 	if len(os.Args) > 1 && os.Args[1] == "-child" {
@@ -41,6 +61,7 @@ func run(c *lib.Ctx) error {
 		"DELETE stops; correspondence: availability time (float model), whole sessions (inits, PUTs per event, API call returns, final state), " +
 		"hand-over (Read return values, bytes)"
 	var terms []string
+	probeRounding()
 	if err := runAvail(c, &terms); err != nil {
 		return err
 	}
@@ -67,12 +88,10 @@ func run(c *lib.Ctx) error {
 var caseIDRe = regexp.MustCompile(`^(\w+) \d+ `)
 
 func writeCases(c *lib.Ctx, terms []string) {
-	rounding, how := detectRounding()
-	c.Res.Notes = append(c.Res.Notes, "calcSegmentAvailabilityTime rounding read from the source: "+rounding+" ("+how+")")
-	firstFix, how3 := detectFirstFix()
-	c.Res.Notes = append(c.Res.Notes, "first number honours the start number, read from the source: "+firstFix+" ("+how3+")")
-	catchup, how2 := detectCatchup()
-	c.Res.Notes = append(c.Res.Notes, "catch-up loop looks at lastSegNrToSend, read from the source: "+catchup+" ("+how2+")")
+	// Which variant of the model the tree under test is compared with is decided by behaviour
+	// (probes below), never by the shape of the source.
+	rounding, firstFix, catchup := variant.rounding, variant.firstFix, variant.catchup
+	c.Res.Notes = append(c.Res.Notes, "model variant chosen by behavioural probes: rounding "+rounding+" ("+variant.roundingHow+"); first number "+firstFix+" ("+variant.firstHow+"); catch-up loop "+catchup+" ("+variant.catchupHow+")")
 	groups := map[string][]string{}
 	order := []string{"avail", "hand", "handbig", "sess"}
 	per := map[string]int{"avail": 400, "hand": 400, "handbig": 3, "sess": 45}
@@ -102,132 +121,4 @@ func writeCases(c *lib.Ctx, terms []string) {
 			n++
 		}
 	}
-}
-
-// detectRounding reads calcSegmentAvailabilityTime in the tree the harness was built from and says
-// how the float milliseconds become an integer: int64(x) -> RTrunc, int64(math.Ceil(x)) -> RCeil.
-// Anything else is reported as RTrunc (the pinned code) and shows up as a correspondence mismatch.
-func detectRounding() (string, string) {
-	dir := app.VerifC16SourceDir()
-	fset := token.NewFileSet()
-	f, err := parser.ParseFile(fset, filepath.Join(dir, "livesegment.go"), nil, 0)
-	if err != nil {
-		return "RTrunc", "source not readable: " + err.Error()
-	}
-	found := "RTrunc"
-	how := "function not found"
-	ast.Inspect(f, func(n ast.Node) bool {
-		fd, ok := n.(*ast.FuncDecl)
-		if !ok || fd.Name.Name != "calcSegmentAvailabilityTime" || fd.Body == nil {
-			return true
-		}
-		how = "no int64(...) conversion assigned to milliSeconds"
-		ast.Inspect(fd.Body, func(m ast.Node) bool {
-			as, ok := m.(*ast.AssignStmt)
-			if !ok || len(as.Lhs) != 1 || len(as.Rhs) != 1 {
-				return true
-			}
-			if id, ok := as.Lhs[0].(*ast.Ident); !ok || id.Name != "milliSeconds" {
-				return true
-			}
-			call, ok := as.Rhs[0].(*ast.CallExpr)
-			if !ok || len(call.Args) != 1 {
-				return true
-			}
-			if id, ok := call.Fun.(*ast.Ident); !ok || id.Name != "int64" {
-				return true
-			}
-			how = "int64(x)"
-			if inner, ok := call.Args[0].(*ast.CallExpr); ok {
-				if sel, ok := inner.Fun.(*ast.SelectorExpr); ok {
-					if pk, ok := sel.X.(*ast.Ident); ok && pk.Name == "math" && sel.Sel.Name == "Ceil" {
-						found, how = "RCeil", "int64(math.Ceil(x))"
-					} else {
-						how = "int64(" + sel.Sel.Name + "(x)): not modelled"
-					}
-				}
-			}
-			return true
-		})
-		return false
-	})
-	return found, how
-}
-
-// detectCatchup reads cmafIngester.start in the tree the harness was built from: does the catch-up
-// loop ("for deltaTime <= 0") pass the literal false as isLast to sendMediaSegments (the pinned
-// code: the duration is ignored while catching up) or an expression (the proposed repair)?
-func detectCatchup() (string, string) {
-	dir := app.VerifC16SourceDir()
-	fset := token.NewFileSet()
-	f, err := parser.ParseFile(fset, filepath.Join(dir, "cmaf-ingester.go"), nil, 0)
-	if err != nil {
-		return "false", "source not readable: " + err.Error()
-	}
-	found, how := "false", "catch-up loop not found"
-	ast.Inspect(f, func(n ast.Node) bool {
-		fd, ok := n.(*ast.FuncDecl)
-		if !ok || fd.Name.Name != "start" || fd.Body == nil {
-			return true
-		}
-		ast.Inspect(fd.Body, func(m ast.Node) bool {
-			fs, ok := m.(*ast.ForStmt)
-			if !ok || fs.Cond == nil {
-				return true
-			}
-			be, ok := fs.Cond.(*ast.BinaryExpr)
-			if !ok {
-				return true
-			}
-			if id, ok := be.X.(*ast.Ident); !ok || id.Name != "deltaTime" {
-				return true
-			}
-			how = "no call of sendMediaSegments in the catch-up loop"
-			ast.Inspect(fs.Body, func(k ast.Node) bool {
-				call, ok := k.(*ast.CallExpr)
-				if !ok || len(call.Args) != 4 {
-					return true
-				}
-				sel, ok := call.Fun.(*ast.SelectorExpr)
-				if !ok || sel.Sel.Name != "sendMediaSegments" {
-					return true
-				}
-				if id, ok := call.Args[3].(*ast.Ident); ok && id.Name == "false" {
-					found, how = "false", "isLast is the literal false"
-				} else {
-					found, how = "true", "isLast is computed from lastSegNrToSend"
-				}
-				return true
-			})
-			return true
-		})
-		return false
-	})
-	return found, how
-}
-
-// detectFirstFix reads cmafIngester.start: does it use the start number (a call of getStartNr) when
-// it chooses the first segment number (proposed_fixes/C16-first-number.diff) or not (the pinned code)?
-func detectFirstFix() (string, string) {
-	dir := app.VerifC16SourceDir()
-	fset := token.NewFileSet()
-	f, err := parser.ParseFile(fset, filepath.Join(dir, "cmaf-ingester.go"), nil, 0)
-	if err != nil {
-		return "false", "source not readable: " + err.Error()
-	}
-	found, how := "false", "start does not call getStartNr"
-	ast.Inspect(f, func(n ast.Node) bool {
-		fd, ok := n.(*ast.FuncDecl)
-		if !ok || fd.Name.Name != "start" || fd.Body == nil {
-			return true
-		}
-		ast.Inspect(fd.Body, func(m ast.Node) bool {
-			if sel, ok := m.(*ast.SelectorExpr); ok && sel.Sel.Name == "getStartNr" {
-				found, how = "true", "start adds getStartNr() to the first number"
-			}
-			return true
-		})
-		return false
-	})
-	return found, how
 }
